@@ -4,6 +4,7 @@
 -/
 import BurrowVerif.Proofs.StorageDelete
 import BurrowVerif.Proofs.Locks
+import BurrowVerif.Proofs.Cluster
 import BurrowVerif.Generated.StorageLocks
 
 namespace Burrow.Props.C09
@@ -174,5 +175,42 @@ theorem deletion_follows_earlier_commits (n : Nat) (hash : String → Nat) (pick
     (after.filter fun r => Locks.assign n hash pick r == w), ?_⟩
   simp only [arrivals, Locks.queueOf, List.filter_append, List.filter_cons, hw, beq_self_eq_true, if_true, w]
   done
+
+/-! ### The groups reaper (cluster module, `reapNonExistingGroups`; run for real by the `cluster`
+    stream's `K tick reap` ops): a third source of group deletions -/
+
+/-- The reaper asks storage to delete exactly the groups storage lists that Kafka does not, the
+    cluster's own `burrow-<name>` group excepted — and only when both listings were obtained. -/
+theorem reaper_deletes_iff (name : String) (kg sg : Option (List String)) (g : String) :
+    g ∈ (Cluster.reap name kg sg).2 ↔
+      ∃ k s, kg = some k ∧ sg = some s ∧ g ∈ s ∧ g ∉ k ∧ g ≠ "burrow-" ++ name :=
+  Proofs.Cluster.mem_reap name kg sg g
+
+/-- A failed `ListConsumerGroups` deletes nothing (an error is not an empty cluster) and does not even
+    ask storage; a nil reply from storage deletes nothing either. -/
+theorem reaper_failed_listing_deletes_nothing (name : String) (sg kg : Option (List String)) :
+    Cluster.reap name none sg = (false, []) ∧ (Cluster.reap name kg none).2 = [] := by
+  constructor
+  · rfl
+  · cases kg <;> rfl
+
+/-- A group Kafka still lists is never reaped. -/
+theorem reaper_spares_live_groups (name : String) (k : List String) (sg : Option (List String)) (g : String)
+    (h : g ∈ k) : g ∉ (Cluster.reap name (some k) sg).2 := by
+  rw [reaper_deletes_iff]
+  rintro ⟨k', s, hk, _, _, hn, _⟩
+  cases hk
+  exact hn h
+
+/-- Each stored group is named at most once per sweep. -/
+theorem reaper_names_each_group_once (name : String) (kg : Option (List String)) (s : List String)
+    (h : s.Nodup) : (Cluster.reap name kg (some s)).2.Nodup := by
+  unfold Cluster.reap
+  cases kg with
+  | none => exact List.nodup_nil
+  | some k => exact h.sublist List.filter_sublist
+
+example : Cluster.reap "c0" (some ["g1"]) (some ["g0", "g1", "burrow-c0", "g2"]) = (true, ["g0", "g2"]) := by decide
+example : Cluster.reap "c0" none (some ["g0"]) = (false, []) := by decide
 
 end Burrow.Props.C09
